@@ -16,12 +16,24 @@ echo "## with the change"
 cargo build --offline 2>&1 | grep -E "^error" ; b1=${PIPESTATUS[0]}
 cargo build --offline --features async 2>&1 | grep -E "^error"; b2=${PIPESTATUS[0]}
 echo "build: $b1 build(async): $b2"
-cargo nextest run --workspace --no-fail-fast --test-threads 8 --offline 2>&1 | tail -3 > $out/suite_with.log; cat $out/suite_with.log
+cargo nextest run --workspace --no-fail-fast --test-threads 8 --offline > $out/suite_full.log 2>&1; tail -3 $out/suite_full.log > $out/suite_with.log; cat $out/suite_with.log
+# timing tests flake when the machine is loaded: re-run each failed test alone (up to 4 times)
+flaky_ok=1
+for t in $(grep -E "^ +FAIL " $out/suite_full.log | awk '{print $NF}' | sort -u); do
+  ok=0
+  for i in 1 2 3 4; do
+    if cargo nextest run --offline --test-threads 1 "$t" > /dev/null 2>&1; then ok=1; break; fi
+  done
+  echo "retry alone: $t -> $ok" | tee -a $out/suite_with.log
+  [ $ok = 1 ] || flaky_ok=0
+done
+echo "suite_after_retries_ok=$flaky_ok" | tee -a $out/suite_with.log
+rm -f $out/suite_full.log
 timeout 600 cargo run --offline --release --example $demo $fa > $out/demo_with.log 2>&1; rc_with=$?
 echo "demo exit with: $rc_with"
 git diff -- src > $out/patch.diff
 cp seed_out/$demo.rs $out/seed_demo.rs
 cp seed_out/NOTES.md $out/NOTES.md
 git checkout -q -- src
-echo "RESULT dest=$dest without=$rc_without with=$rc_with suite=$(grep -o '[0-9]* passed' $out/suite_with.log | head -1)"
+echo "RESULT dest=$dest without=$rc_without with=$rc_with suite=$(grep -o '[0-9]* passed' $out/suite_with.log | head -1) retries_ok=$(grep -o "suite_after_retries_ok=[01]" $out/suite_with.log)"
 } 2>&1 | tee $out/verify.log
